@@ -27,10 +27,23 @@ pub struct MiriRun {
     pub stderr: String,
 }
 
-fn run_miri(histories: &[(usize, Vec<Op>)]) -> MiriRun {
+fn run_miri(histories: &[(usize, Vec<Op>)], opts: &Options) -> MiriRun {
     let dir = vcore::scratch_base();
     let file = dir.join("miri-histories.txt");
-    let text: String = histories.iter().map(|(c, o)| interp::encode_history(*c, o) + "\n").collect();
+    let mut text = String::new();
+    if opts.exclude_absent_singleton_read {
+        text.push_str("#exclude absent_singleton_read\n");
+    }
+    if opts.exclude_equal_value_write {
+        text.push_str("#exclude equal_value_write\n");
+    }
+    if opts.exclude_second_intern_owner {
+        text.push_str("#exclude second_intern_owner\n");
+    }
+    // the replay numbers histories by line: keep the header out of the numbering
+    let header_lines = text.lines().count();
+    let _ = header_lines;
+    text.extend(histories.iter().map(|(c, o)| interp::encode_history(*c, o) + "\n"));
     std::fs::write(&file, text).expect("write histories");
     let out = Command::new("cargo")
         .arg("+nightly")
@@ -106,7 +119,7 @@ fn judge(run: &MiriRun, n: usize) -> Result<(), (usize, Fail)> {
 /// Replay the given histories under Miri (used by `--replay` for C03).
 pub fn replay_under_miri(report: &Report, hs: &[(usize, Vec<Op>)]) -> Result<(), Fail> {
     report.engine("miri");
-    let run = run_miri(hs);
+    let run = run_miri(hs, &Options::default());
     judge(&run, hs.len()).map_err(|(_, f)| f)
 }
 
@@ -171,15 +184,20 @@ pub fn miri_tier(report: &Report, args: &Args, opts: &Options) {
     let chunk = args.tier.pick(want, 50);
     let mut ran = 0u64;
     for part in chosen.chunks(chunk) {
-        let run = run_miri(part);
+        let run = run_miri(part, opts);
         match judge(&run, part.len()) {
             Ok(()) => {
                 ran += part.len() as u64;
             }
             Err((idx, fail)) => {
                 let h = &part[idx.min(part.len() - 1)];
+                let sig = fail.signature.clone();
                 match report.tolerate(Err(fail)) {
-                    Ok(()) => {}
+                    Ok(()) => {
+                        // tolerated (listed finding): keep the input as evidence and go on
+                        println!("NOTE: Miri hit the listed finding {sig} on {}", interp::encode_history(h.0, &h.1));
+                        report.sample("miri-known-finding", 3, || crate::history_json(h));
+                    }
                     Err(fail) => {
                         report.violation("miri-history", &fail, crate::history_json(h));
                         break;
